@@ -751,3 +751,101 @@ pub async fn run_pair() {
         let _ = world::join2(tokio::time::timeout(std::time::Duration::from_secs(30), c.close()), tokio::time::timeout(std::time::Duration::from_secs(30), l.on_close())).await;
     }
 }
+
+// ---------------------------------------------------------------------------------------
+// (d) a client that does not wait: SASL header, sasl-init (PLAIN), AMQP header and open leave
+// in one write, and the simulated network cuts that byte stream wherever it likes. The listener
+// reads SASL frames and AMQP frames from the same stream and must not lose a byte at the
+// switch from one layer to the other. (Also registered under C06: incoming frames are decoded
+// identically no matter how the byte stream is split across reads.)
+
+pub async fn run_pipelined_client() {
+    let honest = choice(4) != 0;
+    let with_begin = choice(2) == 1;
+    let (nab, nba, nd) = world::draw_net(true);
+    sim::set_config(format!("variant=pipelined-client listener-mechanism=PLAIN honest={} begin-pipelined-too={} {}", honest, with_begin, nd));
+    sim::mark_nontrivial();
+    sim::set_panic_is_violation(true);
+    let (ps, ls, net) = SimStream::pair("peer", "listener", nab, nba);
+    let _mon = wire::install(&net, ["peer", "listener"], [Models::none(), Models::none()]);
+    let mut peer = Peer::new("peer", ps);
+    let listener = listener_for(Mech::Plain);
+    let accept_fut = sim::in_group(2, async { listener.accept(ls).await });
+    let pass = if honest { PASS.to_string() } else { wrong_password() };
+    let script = async {
+        let mut bytes = SASL_HEADER.to_vec();
+        let init = sasl_init("PLAIN", Some(format!("\0{}\0{}", USER, pass).into_bytes()));
+        bytes.extend_from_slice(&peer::frame_bytes(1, 0, &crate::refcodec::encode(&init)));
+        bytes.extend_from_slice(&AMQP_HEADER);
+        bytes.extend_from_slice(&peer::perf_frame(0, &peer::open("eager", Some(65536), Some(255), None), &[]));
+        if with_begin {
+            bytes.extend_from_slice(&peer::perf_frame(0, &peer::begin(None, 0, 100, 100), &[]));
+        }
+        sim::fault("sasl-and-amqp-in-one-write");
+        peer.send_raw(&bytes).await;
+        // what the listener writes, in order
+        let mut seen: Vec<String> = Vec::new();
+        let mut outcome_code = None;
+        let mut amqp_open = false;
+        loop {
+            match peer.recv_within(300_000).await {
+                Some(Item::Header(h)) => seen.push(format!("header{:?}", &h[4..])),
+                Some(Item::Frame(f)) => {
+                    seen.push(format!("frame{:#x}", f.code));
+                    if f.code == SASL_OUTCOME {
+                        outcome_code = f.perf.as_ref().and_then(|p| p.field(0).as_u32());
+                    }
+                    if f.code == wire::OPEN {
+                        amqp_open = true;
+                        break;
+                    }
+                    if f.code == wire::CLOSE {
+                        break;
+                    }
+                }
+                None => break,
+            }
+        }
+        if amqp_open {
+            peer.send(0, &peer::close(None)).await;
+            let _ = peer.drain_for(2000).await;
+        }
+        peer.shutdown().await;
+        (seen, outcome_code, amqp_open)
+    };
+    let (accepted, (seen, outcome_code, amqp_open)) = match sim::op("pipelined sasl and open", world::join2(accept_fut, script)).await {
+        Some(x) => x,
+        None => return,
+    };
+    if honest {
+        if outcome_code != Some(0) {
+            sim::violation("valid-credentials-refused", format!("valid PLAIN credentials sent in one write with the AMQP header and open: outcome {:?}; the listener wrote {:?}; accept: {:?}", outcome_code, seen, accepted.as_ref().map(|_| ())));
+            return;
+        }
+        if !amqp_open || accepted.is_err() {
+            sim::violation(
+                "bytes-lost-at-layer-switch",
+                format!(
+                    "the client sent SASL header, sasl-init, AMQP header and open in one write; after outcome ok the listener wrote {:?} and accept returned {:?}",
+                    seen,
+                    accepted.as_ref().map(|_| ())
+                ),
+            );
+            return;
+        }
+        sim::probe("pipelined-open-accepted");
+        if let Ok(mut h) = accepted {
+            let _ = tokio::time::timeout(std::time::Duration::from_secs(30), h.on_close()).await;
+        }
+    } else {
+        if outcome_code == Some(0) {
+            sim::violation("outcome-ok-without-authentication", "a wrong password sent in one write with the AMQP header and open: the listener sent outcome ok".into());
+            return;
+        }
+        if amqp_open || accepted.is_ok() {
+            sim::violation("connection-without-authentication", format!("a wrong password, pipelined: the listener wrote {:?} and accept returned {:?}", seen, accepted.as_ref().map(|_| ())));
+            return;
+        }
+        sim::probe("pipelined-wrong-password-refused");
+    }
+}
